@@ -16,6 +16,13 @@ KINDS = ['value-change', 'port-update', 'port-add', 'port-remove', 'device-updat
          'slave-device-add', 'slave-device-remove', 'slave-device-update']
 T0 = 1_000_000
 
+# Required level of each event type as the API specification fixes it (10 view-only, 20 normal, 30 admin): port events,
+# value changes and full-update are for every listener; device-update (it carries the device attributes) and the slave
+# device events are admin-only. The model and the oracle use THIS table; the live classes' REQUIRED_ACCESS is compared
+# with it on every run, so lowering a level in the code is a property failure, not a parameter change.
+SPEC_LEVELS = {'value-change': 10, 'port-update': 10, 'port-add': 10, 'port-remove': 10, 'device-update': 30,
+               'full-update': 10, 'slave-device-add': 30, 'slave-device-remove': 30, 'slave-device-update': 30}
+
 
 class FakePort:
     def __init__(self, i):
@@ -216,8 +223,8 @@ class C11(Prop):
                     d['verif_serial'] = n
                     return d
                 ev.to_json = tagged
-                ev_req[n] = ev.REQUIRED_ACCESS
-                trig_log.append((n, ev.REQUIRED_ACCESS, idx))
+                ev_req[n] = SPEC_LEVELS[kind]
+                trig_log.append((n, SPEC_LEVELS[kind], idx))
                 serial += 1
                 await ce.trigger(ev)
             elif op[0] == 'listen':
@@ -297,7 +304,7 @@ class C11(Prop):
 
     def run_case(self, case, driver):
         real, ev_req, trig_log, left = self.loop.run_until_complete(self._real(case))
-        levels = {k: c.REQUIRED_ACCESS for k, c in self.classes.items()}
+        levels = dict(SPEC_LEVELS)
         model = self._model(case, driver, levels)
         tags = set()
         # ---- oracle on the real observations
